@@ -1,0 +1,21 @@
+//go:build verif && verif_ipa
+
+package multiproof
+
+// Verification hooks (build tags verif+verif_ipa only): read access to the
+// Fiat-Shamir label slices.
+
+// VerifLabels returns the label slices extended to their full capacity.
+func VerifLabels() map[string][]byte {
+	full := func(b []byte) []byte { return b[:cap(b)] }
+	return map[string][]byte{
+		"multiproof.labelC":         full(labelC),
+		"multiproof.labelZ":         full(labelZ),
+		"multiproof.labelY":         full(labelY),
+		"multiproof.labelD":         full(labelD),
+		"multiproof.labelE":         full(labelE),
+		"multiproof.labelT":         full(labelT),
+		"multiproof.labelR":         full(labelR),
+		"multiproof.labelDomainSep": full(labelDomainSep),
+	}
+}
